@@ -35,17 +35,30 @@ def _has_sym(a):
     return core.is_sym(a) or isinstance(a, Garbage)
 
 
-def _norm_key(key):
-    """Object arrays of SymBool/bool cannot index: realise them to real bool arrays (forks)."""
+def _norm_key(key, poison=None):
+    """Object arrays of SymBool/bool cannot index: realise them to real bool arrays (forks).
+    A mask element that depends on uninitialised memory selects its position (True) and, when
+    `poison` is a list, is reported there: the store that uses the mask then poisons the position
+    (its value depends on uninitialised memory whichever way the mask would have gone)."""
     if isinstance(key, tuple):
-        return tuple(_norm_key(k) for k in key)
+        return tuple(_norm_key(k, poison) for k in key)
     if isinstance(key, _np.ndarray) and key.dtype == object and key.size and \
             all(isinstance(x, (SymBool, bool, _np.bool_)) for x in key.reshape(-1)):
         out = _np.empty(key.shape, dtype=bool)
         of = out.reshape(-1)
         kf = key.reshape(-1)
+        tainted = None
         for i in range(kf.size):
-            of[i] = bool(kf[i])
+            x = kf[i]
+            if isinstance(x, SymBool) and core.mentions_uninit(x.t):
+                of[i] = True
+                if tainted is None:
+                    tainted = _np.zeros(key.shape, dtype=bool)
+                tainted.reshape(-1)[i] = True
+            else:
+                of[i] = bool(x)
+        if tainted is not None and poison is not None:
+            poison.append(tainted)
         return out
     if isinstance(key, SymInt):
         return int(key)
@@ -73,7 +86,14 @@ class SymNd(_np.ndarray):
     def __setitem__(self, key, val):
         if self._cast is not None:
             val = _apply_cast(val, self._cast)
-        _np.ndarray.__setitem__(self, _norm_key(key), val)
+        poison = []
+        _np.ndarray.__setitem__(self, _norm_key(key, poison), val)
+        for t in poison:
+            if t.shape == self.shape:
+                for idx in _np.argwhere(t):
+                    _np.ndarray.__setitem__(self, tuple(idx), core.uninit())
+            elif core.have_ctx():
+                core.cur().flag('symx: uninitialised mask inside a compound index')
 
     def min(self, axis=None, **k):
         return nmin(self, axis=axis)
